@@ -355,4 +355,277 @@ theorem gen_frag (T : GoType) (hT : Frag T = true) (n : Nat) (hn : T.depth < n) 
     schemaForType SReg.empty TEnv.empty n [] T = .ok (genSchema T) :=
   gen_frag_aux (T.depth + 1) T (by omega) hT n [] hn (fun _ h => by cases h)
 
+/-! ## `buildCodec` step by step, as equations -/
+
+theorem build_union_ok {reg : Reg} {n : Nat} {u : Schema} {typ : Option GoType} {oe : Bool} {cb : Codec}
+    (h : buildCodec reg n u typ oe = .ok cb) :
+    buildCodec reg (n + 3) (nullableSchema u) typ oe = .ok (wrapU cb) := by
+  rw [buildCodec_union_eq reg n _ u typ oe (nullable_type u) (nullable_union u), h]
+  cases cb <;> rfl
+
+theorem build_array_ok {reg : Reg} {n : Nat} {u : Schema} {e : GoType} {oe : Bool} {ci : Codec}
+    (h : buildCodec reg n u (some e) false = .ok ci) :
+    buildCodec reg (n + 2) (arraySchema u) (some (.slice e)) oe = .ok (.array ci oe) := by
+  simp [buildCodec, arraySchema, Schema.type, regLookup, buildKind, Schema.object, GoType.strip, SchemaObject.items, h]
+
+theorem build_map_ok {reg : Reg} {n : Nat} {u : Schema} {v : GoType} {oe : Bool} {ci : Codec}
+    (h : buildCodec reg n u (some v) false = .ok ci) :
+    buildCodec reg (n + 2) (mapSchema u) (some (.map .string v)) oe = .ok (.map ci oe) := by
+  simp [buildCodec, mapSchema, Schema.type, regLookup, buildKind, Schema.object, GoType.strip, SchemaObject.values, h]
+
+theorem build_record_ok {reg : Reg} {n : Nat} {name pkg gn gp : String} {sfs : List SchemaField} {fs : List GoField}
+    {oe : Bool} {cs : List Codec} {ts : List (Option Nat)} (h : buildFields reg n sfs (some fs) = .ok (cs, ts)) :
+    buildCodec reg (n + 2) (recordSchema name pkg sfs) (some (.struct gn gp fs)) oe
+      = .ok (.record (zeroFields fs) cs ts) := by
+  simp [buildCodec, recordSchema, Schema.type, regLookup, buildKind, Schema.object, GoType.strip, SchemaObject.fields, h]
+
+theorem build_ptr_ok {reg : Reg} {n : Nat} {s : Schema} {e : GoType} {oe : Bool} {c : Codec}
+    (h1 : s.type ≠ "union") (h2 : s.type ≠ "null") (h : buildCodec reg n s (some e) false = .ok c) :
+    buildCodec reg (n + 1) s (some (.ptr e)) oe = .ok (.pointer c) := by
+  rw [buildCodec_ptr reg n s e oe h1 h2, h]
+
+theorem omitWrap_union (oe : Bool) (u : Schema) : omitWrap oe (nullableSchema u) = nullableSchema u := by
+  simp [omitWrap, nullable_type]
+
+theorem omitWrap_true {u : Schema} (h : u.type ≠ "union") : omitWrap true u = nullableSchema u := by
+  simp [omitWrap, h]
+
+theorem omitWrap_false (u : Schema) : omitWrap false u = u := by
+  simp [omitWrap]
+
+/-! ## the built codec is the codec of the type -/
+
+/-- at budget `N` of `bareCodec` / `fieldCodec`: where they are defined the type is in the fragment
+and `buildCodec` yields the same codec on the bare schema (`bare`), respectively on the field schema
+(`field`: the generated schema under the `omitempty` wrapper), with any sufficient fuel -/
+structure TieAt (N : Nat) : Prop where
+  bare : ∀ (T : GoType) (oe : Bool) (cb : Codec), bareCodec N T oe = some cb →
+    Frag T = true ∧ ∀ m, T.bfuel ≤ m → buildCodec libReg m (bareSchema T) (some T) oe = .ok cb
+  field : ∀ (T : GoType) (oe : Bool) (c : Codec), fieldCodec N T oe = some c →
+    Frag T = true ∧
+      ∀ m, T.bfuel + 3 ≤ m → buildCodec libReg m (omitWrap oe (genSchema T)) (some T) oe = .ok c
+
+theorem tie_zero : TieAt 0 where
+  bare := fun _ _ _ h => by simp [bareCodec] at h
+  field := fun _ _ _ h => by simp [fieldCodec] at h
+
+theorem tie_field_step (N : Nat) (ih : TieAt N) (T : GoType) (oe : Bool) (c : Codec)
+    (h : fieldCodec (N + 1) T oe = some c) :
+    Frag T = true ∧
+      ∀ m, T.bfuel + 3 ≤ m → buildCodec libReg m (omitWrap oe (genSchema T)) (some T) oe = .ok c := by
+  simp only [fieldCodec] at h
+  by_cases hu : unionTyped T = true
+  · simp only [hu, if_true, Option.map_eq_some_iff] at h
+    obtain ⟨cb, hcb, rfl⟩ := h
+    obtain ⟨hF, hb⟩ := ih.bare T oe cb hcb
+    refine ⟨hF, fun m hm => ?_⟩
+    obtain ⟨m', rfl⟩ : ∃ m', m = m' + 3 := ⟨m - 3, by omega⟩
+    simp only [genSchema, wrapN, hu, if_true, omitWrap_union]
+    exact build_union_ok (hb m' (by omega))
+  · have hu' : unionTyped T = false := by simpa using hu
+    simp only [hu', Bool.false_eq_true, if_false] at h
+    cases oe with
+    | true =>
+      simp only [if_true, Option.map_eq_some_iff] at h
+      obtain ⟨cb, hcb, rfl⟩ := h
+      obtain ⟨hF, hb⟩ := ih.bare T true cb hcb
+      refine ⟨hF, fun m hm => ?_⟩
+      obtain ⟨m', rfl⟩ : ∃ m', m = m' + 3 := ⟨m - 3, by omega⟩
+      have hty := bare_type (T.depth + 1) T (by omega) hF
+      simp only [genSchema, wrapN, hu', Bool.false_eq_true, if_false, omitWrap_true hty.1]
+      exact build_union_ok (hb m' (by omega))
+    | false =>
+      simp only [Bool.false_eq_true, if_false] at h
+      obtain ⟨hF, hb⟩ := ih.bare T false c h
+      refine ⟨hF, fun m hm => ?_⟩
+      simp only [genSchema, wrapN, hu', Bool.false_eq_true, if_false, omitWrap_false]
+      exact hb m (by omega)
+
+theorem nodupB_cons {a : String} {r : List String} (h : nodupB (a :: r) = true) : a ∉ r ∧ nodupB r = true := by
+  simpa [nodupB] using h
+
+theorem encFields_cons_skip {f : GoField} {fs : List GoField} (h : nameForField f = "-") :
+    encFields (f :: fs) = encFields fs := by
+  simp [encFields, h]
+
+theorem encFields_cons_keep {f : GoField} {fs : List GoField} (h : nameForField f ≠ "-") :
+    encFields (f :: fs) = f :: encFields fs := by
+  simp [encFields, h]
+
+theorem mem_encFields {g : GoField} {fs : List GoField} (hg : g ∈ fs) (hn : nameForField g ≠ "-") :
+    g ∈ encFields fs := by
+  simp [encFields, hg, hn]
+
+theorem fieldSchemas_cons (f : GoField) (fs : List GoField) :
+    fieldSchemas (f :: fs) =
+      if nameForField f == "-" then fieldSchemas fs
+      else .mk (nameForField f) (omitWrap (omitEmptyTag f.jsonTag) (genSchema f.type)) :: fieldSchemas fs := by
+  obtain ⟨n, e, j, b, t⟩ := f
+  simp only [fieldSchemas, GoField.jsonTag, GoField.type, genSchema]
+
+theorem fragFields_cons (f : GoField) (fs : List GoField) :
+    FragFields (f :: fs) = ((nameForField f == "-" || Frag f.type) && FragFields fs) := by
+  obtain ⟨n, e, j, b, t⟩ := f
+  simp only [FragFields, GoField.type]
+
+theorem bfuelList_cons (f : GoField) (fs : List GoField) :
+    GoField.bfuelList (f :: fs) = max f.type.bfuel (GoField.bfuelList fs) := by
+  obtain ⟨n, e, j, b, t⟩ := f
+  simp only [GoField.bfuelList, GoField.type]
+
+/-- the field loop of `buildRecordCodec` on the generated record fields of the struct fields `post`
+(the tail of `fs = pre ++ post`): the codecs of the encoded fields, each targeting its own position -/
+theorem buildFields_tie (N : Nat) (ih : TieAt N) (fs : List GoField) :
+    ∀ (post pre : List GoField) (cs : List Codec), fs = pre ++ post →
+      nodupB ((encFields post).map nameForField) = true →
+      allSome ((encFields post).map fun f => fieldCodec N f.type (omitEmptyTag f.jsonTag)) = some cs →
+      FragFields post = true ∧
+      ∀ m, GoField.bfuelList post + post.length + 4 ≤ m →
+        buildFields libReg m (fieldSchemas post) (some fs) = .ok (cs, targetsFrom pre.length post)
+  | [], pre, cs, _, _, hcs => by
+    simp only [encFields, List.filter_nil, List.map_nil, allSome, Option.some.injEq] at hcs
+    subst hcs
+    refine ⟨rfl, fun m hm => ?_⟩
+    obtain ⟨m', rfl⟩ : ∃ m', m = m' + 1 := ⟨m - 1, by omega⟩
+    rfl
+  | f :: post, pre, cs, hfs, hnd, hcs => by
+    have hfs' : fs = (pre ++ [f]) ++ post := by simp [hfs]
+    by_cases hn : nameForField f = "-"
+    · rw [encFields_cons_skip hn] at hnd hcs
+      obtain ⟨hF, hb⟩ := buildFields_tie N ih fs post (pre ++ [f]) cs hfs' hnd hcs
+      refine ⟨by simp [fragFields_cons, hn, hF], fun m hm => ?_⟩
+      simp only [fieldSchemas_cons, hn, beq_self_eq_true, if_true, targetsFrom, bne_self_eq_false,
+        Bool.false_eq_true, if_false]
+      rw [bfuelList_cons, List.length_cons] at hm
+      have := hb m (by omega)
+      simpa using this
+    · have hn' : (nameForField f == "-") = false := by simpa using hn
+      have hn'' : (nameForField f != "-") = true := by simpa using hn
+      rw [encFields_cons_keep hn] at hnd hcs
+      simp only [List.map_cons] at hnd hcs
+      obtain ⟨hnot, hnd'⟩ := nodupB_cons hnd
+      cases hc : fieldCodec N f.type (omitEmptyTag f.jsonTag) with
+      | none => simp [hc, allSome] at hcs
+      | some c =>
+        simp only [hc, allSome, Option.map_eq_some_iff] at hcs
+        obtain ⟨cs', hcs', rfl⟩ := hcs
+        obtain ⟨hF, hb⟩ := buildFields_tie N ih fs post (pre ++ [f]) cs' hfs' hnd' hcs'
+        obtain ⟨hFf, hbf⟩ := ih.field f.type _ c hc
+        refine ⟨by simp [fragFields_cons, hFf, hF], fun m hm => ?_⟩
+        rw [bfuelList_cons, List.length_cons] at hm
+        obtain ⟨m', rfl⟩ : ∃ m', m = m' + 1 := ⟨m - 1, by omega⟩
+        have hlook : lookupField (nameForField f) fs 0 none = some (pre.length, f) := by
+          rw [hfs, lookupField_last pre post f 0 none hn ?_]
+          · simp
+          · intro g hg heq
+            apply hnot
+            rw [← heq]
+            exact List.mem_map.mpr ⟨g, mem_encFields hg (by rw [heq]; exact hn), rfl⟩
+        have h1 := hbf m' (by omega)
+        have h2 := hb m' (by omega)
+        simp only [List.length_append, List.length_singleton] at h2
+        simp only [fieldSchemas_cons, hn', Bool.false_eq_true, if_false, targetsFrom, hn'', if_true,
+          buildFields, SchemaField.name, SchemaField.type, hlook, h1, h2, Option.map]
+
+theorem tie_bare_step (N : Nat) (ih : TieAt N) (T : GoType) (oe : Bool) (cb : Codec)
+    (h : bareCodec (N + 1) T oe = some cb) :
+    Frag T = true ∧ ∀ m, T.bfuel ≤ m → buildCodec libReg m (bareSchema T) (some T) oe = .ok cb := by
+  cases T
+  case slice e =>
+    rw [bareCodec_slice] at h
+    by_cases hu : isU8n e = true
+    · have := isU8_eq hu; subst this
+      simp only [isU8n, if_true, Option.some.injEq] at h
+      subst h
+      refine ⟨by simp [Frag, isU8n], fun m hm => ?_⟩
+      simp only [GoType.bfuel] at hm
+      obtain ⟨m', rfl⟩ : ∃ m', m = m' + 2 := ⟨m - 2, by omega⟩
+      simp [bareSchema, isU8n, buildCodec, Schema.prim, Schema.type, regLookup, buildKind, GoType.strip]
+    · have hu' : isU8n e = false := by simpa using hu
+      simp only [hu', Bool.false_eq_true, if_false, Option.map_eq_some_iff] at h
+      obtain ⟨ci, hci, rfl⟩ := h
+      obtain ⟨hF, hb⟩ := ih.field e false ci hci
+      refine ⟨by simp [Frag, hF], fun m hm => ?_⟩
+      simp only [GoType.bfuel] at hm
+      obtain ⟨m', rfl⟩ : ∃ m', m = m' + 2 := ⟨m - 2, by omega⟩
+      have := hb m' (by omega)
+      rw [omitWrap_false] at this
+      simp only [bareSchema, hu', Bool.false_eq_true, if_false]
+      exact build_array_ok this
+  case map k v =>
+    rw [bareCodec_map] at h
+    by_cases hk : isStr k = true
+    · have hk' : k = .string := by
+        cases k <;> simp only [isStr] at hk <;> first | rfl | exact absurd hk (by simp)
+      subst hk'
+      simp only [isStr, if_true, Option.map_eq_some_iff] at h
+      obtain ⟨ci, hci, rfl⟩ := h
+      obtain ⟨hF, hb⟩ := ih.field v false ci hci
+      refine ⟨by simp [Frag, isStr, hF], fun m hm => ?_⟩
+      simp only [GoType.bfuel] at hm
+      obtain ⟨m', rfl⟩ : ∃ m', m = m' + 2 := ⟨m - 2, by omega⟩
+      have := hb m' (by omega)
+      rw [omitWrap_false] at this
+      simp only [bareSchema]
+      exact build_map_ok this
+    · simp [hk] at h
+  case ptr e =>
+    rw [bareCodec_ptr] at h
+    simp only [Option.map_eq_some_iff] at h
+    obtain ⟨ce, hce, rfl⟩ := h
+    obtain ⟨hF, hb⟩ := ih.bare e false ce hce
+    refine ⟨by simpa [Frag] using hF, fun m hm => ?_⟩
+    simp only [GoType.bfuel] at hm
+    obtain ⟨m', rfl⟩ : ∃ m', m = m' + 1 := ⟨m - 1, by omega⟩
+    have hty := bare_type (e.depth + 1) e (by omega) hF
+    simp only [bareSchema]
+    exact build_ptr_ok hty.1 hty.2.1 (hb m' (by omega))
+  case struct nm pkg fs =>
+    rw [bareCodec_struct] at h
+    by_cases hok : structOk fs = true
+    · simp only [hok, if_true, Option.map_eq_some_iff] at h
+      obtain ⟨cs, hcs, rfl⟩ := h
+      obtain ⟨hF, hb⟩ := buildFields_tie N ih fs fs [] cs rfl hok hcs
+      refine ⟨by simp [Frag, hok, hF], fun m hm => ?_⟩
+      simp only [GoType.bfuel] at hm
+      obtain ⟨m', rfl⟩ : ∃ m', m = m' + 2 := ⟨m - 2, by omega⟩
+      simp only [bareSchema]
+      exact build_record_ok (hb m' (by omega))
+    · simp [hok] at h
+  case int w =>
+    simp only [bareCodec] at h
+    split at h
+    · rename_i hw
+      simp only [Option.some.injEq] at h; subst h
+      refine ⟨by rcases hw with rfl | rfl | rfl <;> rfl, fun m hm => ?_⟩
+      simp only [GoType.bfuel] at hm
+      obtain ⟨m', rfl⟩ : ∃ m', m = m' + 2 := ⟨m - 2, by omega⟩
+      rcases hw with rfl | rfl | rfl <;>
+        simp [bareSchema, buildCodec, Schema.prim, Schema.type, regLookup, buildKind, GoType.strip, buildLong]
+    · contradiction
+  case nullT k =>
+    simp only [bareCodec, Option.some.injEq] at h; subst h
+    refine ⟨rfl, fun m hm => ?_⟩
+    simp only [GoType.bfuel] at hm
+    obtain ⟨m', rfl⟩ : ∃ m', m = m' + 1 := ⟨m - 1, by omega⟩
+    have hty := nullInnerS_type k
+    rw [bareSchema, buildCodec_reg libReg m' _ (.nullT k) oe (buildNull k) hty.1 hty.2.1 (by intro e he; cases he) rfl]
+    cases k <;> rfl
+  case time =>
+    simp only [bareCodec, Option.some.injEq] at h; subst h
+    refine ⟨rfl, fun m hm => ?_⟩
+    simp only [GoType.bfuel] at hm
+    obtain ⟨m', rfl⟩ : ∃ m', m = m' + 1 := ⟨m - 1, by omega⟩
+    rw [bareSchema, buildCodec_reg libReg m' _ .time oe buildTime (by decide) (by decide) (by intro e he; cases he) rfl]
+    rfl
+  all_goals (simp only [bareCodec] at h; try contradiction)
+  all_goals (simp only [Option.some.injEq] at h; subst h)
+  all_goals (refine ⟨rfl, fun m hm => ?_⟩; simp only [GoType.bfuel] at hm)
+  all_goals (obtain ⟨m', rfl⟩ : ∃ m', m = m' + 2 := ⟨m - 2, by omega⟩)
+  all_goals simp [bareSchema, buildCodec, Schema.prim, Schema.type, regLookup, buildKind, GoType.strip, libReg]
+
+theorem tieAt : ∀ N, TieAt N
+  | 0 => tie_zero
+  | N + 1 => ⟨tie_bare_step N (tieAt N), tie_field_step N (tieAt N)⟩
+
 end Avro
